@@ -103,10 +103,18 @@ def r02_3(rep, mod, rule='R02.3'):
     rep.check(rule, site, okp, '__bases__ = property(lambda self: self._bases, '
               '__setBases): %s' % norm_src(prop), construct='property', node=cls)
     init = find_def(mod, 'Specification.__init__')
-    cfgi = cfg_of(init)
-    rep.check(rule, 'Specification.__init__',
-              must(cfgi, pred_of('self.__bases__ = tuple(bases)', 'exec')),
-              'the constructor assigns the bases through the property',
+    from ..sympath import summaries as _S, normal as _N
+    from .sem import nt as _nt
+    bp = ([a.arg for a in init.args.args] + ['bases'])[1]
+    paths = _N(_S(init))
+    oki = bool(paths)
+    for ps in paths:
+        st = [e for e in ps.stores() if _nt(e.r) == 'self.__bases__']
+        if len(st) != 1 or norm_src(st[0].val) != 'tuple(%s)' % bp:
+            oki = False
+    rep.check(rule, 'Specification.__init__', oki,
+              'the constructor assigns tuple(bases) through the property on every '
+              'path',
               construct='init', node=init)
 
 
